@@ -20,6 +20,7 @@ PLAN = {
             {"kind": "enum", "test": "TestC12SharedBuilder", "race": True, "timeout": 600},
             {"kind": "enum", "test": "TestEnumFirstUse", "env": {"VERIF_FIRSTUSE_PROP": "C12"}, "timeout": 600},
             {"kind": "enum", "test": "TestEnumFirstUse", "race": True, "env": {"VERIF_FIRSTUSE_PROP": "C12", "VERIF_FIRSTUSE_CONC": 1}, "timeout": 600},
+            {"kind": "fuzz", "test": "FuzzC12", "time": 60},
         ],
     },
     "C05": {
@@ -32,6 +33,8 @@ PLAN = {
             {"kind": "rapid", "test": "TestC05Extents", "checks": 400000, "shards": 16},
             {"kind": "rapid", "test": "TestC05Join", "checks": 200000, "shards": 8},
             {"kind": "rapid", "test": "TestC05Typed", "checks": 300000, "shards": 8},
+            {"kind": "fuzz", "test": "FuzzC05", "time": 60},
+            {"kind": "fuzz", "test": "FuzzC05Typed", "time": 45},
         ],
     },
     "C06": {
@@ -40,6 +43,7 @@ PLAN = {
         ],
         "thorough": [
             {"kind": "rapid", "test": "TestC06Wrap", "checks": 400000, "shards": 16},
+            {"kind": "fuzz", "test": "FuzzC06", "time": 60},
         ],
     },
     "C17": {
@@ -48,6 +52,7 @@ PLAN = {
         ],
         "thorough": [
             {"kind": "rapid", "test": "TestC17Hook", "checks": 400000, "shards": 16},
+            {"kind": "fuzz", "test": "FuzzC17", "time": 60},
         ],
     },
     "C08": {
@@ -58,6 +63,7 @@ PLAN = {
         "thorough": [
             {"kind": "rapid", "test": "TestC08Compose", "checks": 150000, "shards": 16},
             {"kind": "rapid", "test": "TestC08Lines", "checks": 400000, "shards": 8},
+            {"kind": "fuzz", "test": "FuzzC08", "time": 60},
         ],
     },
     "C15": {
@@ -66,6 +72,7 @@ PLAN = {
         ],
         "thorough": [
             {"kind": "rapid", "test": "TestC15Errorf", "checks": 400000, "shards": 16},
+            {"kind": "fuzz", "test": "FuzzC15", "time": 60},
         ],
     },
     "C16": {
@@ -74,6 +81,7 @@ PLAN = {
         ],
         "thorough": [
             {"kind": "rapid", "test": "TestC16Routes", "checks": 200000, "shards": 16},
+            {"kind": "fuzz", "test": "FuzzC16", "time": 60},
         ],
     },
     "C11": {
@@ -90,6 +98,8 @@ PLAN = {
             {"kind": "rapid", "test": "TestC11Join", "checks": 60000, "shards": 16},
             {"kind": "rapid", "test": "TestC11Fmt", "checks": 250000, "shards": 16},
             {"kind": "rapid", "test": "TestC11Panic", "checks": 200000, "shards": 16},
+            {"kind": "fuzz", "test": "FuzzC11Panic", "time": 60},
+            {"kind": "fuzz", "test": "FuzzC11Edge", "time": 45},
         ],
     },
     "C14": {
@@ -170,6 +180,7 @@ PLAN = {
         "thorough": [
             {"kind": "enum", "test": "TestEnumC13", "env": {"VERIF_BOUND": 3}, "timeout": 5400},
             {"kind": "rapid", "test": "TestC13Acc", "checks": 200000, "shards": 16},
+            {"kind": "fuzz", "test": "FuzzC13", "time": 60},
         ],
     },
     "C07": {
